@@ -117,6 +117,7 @@ def main(ctx):
     S = ctx.seed
     cells = []
     shapes = _shapes(2, 2) if ctx.quick else _shapes(3, 3)
+    shapes += [[1, 1, 1, 1], [2, 1, 2, 1], [4, 4]] if ctx.quick else [[1, 1, 1, 1], [2, 1, 2, 1], [4, 4], [1, 1, 1, 1, 1, 1], [5, 5], [3, 1, 3, 1, 3]]   # larger-scope probes
     for shape in shapes:
         total = sum(shape)
         for losses in ("improving", "never", "mixed", "to_zero"):
